@@ -165,6 +165,12 @@ def render(prog):
         out.append("algorithm")
         out += stmts(f["body"], "  ", ":=")
         out.append("end %s;" % f["name"])
+    for cl in prog.get("classes", []):
+        out.append("model %s" % cl["name"])
+        out += [component(c) for c in cl["comps"]]
+        out.append("equation")
+        out += stmts(cl["eqs"], "  ", "=")
+        out.append("end %s;" % cl["name"])
     out.append("model %s" % prog["name"])
     out += [component(c) for c in prog["comps"]]
     if prog.get("ieqs"):
